@@ -93,22 +93,6 @@ def doctype? : Sexp → Option (Option DocTypeT)
 
 def out (why : String) : Sexp := .list [.atom "out", .atom why]
 
-def strNoCR (s : Str) : Bool := s.all (· != '\r')
-def optNoCR : Option Str → Bool
-  | some s => strNoCR s
-  | none => true
-
-/-- no carriage return anywhere in the stream (expat normalises line ends: finding C08-text-cr) -/
-def evNoCR : Event → Bool
-  | .start t a => strNoCR t.loc && a.all fun p => strNoCR p.1.loc && strNoCR p.2
-  | .end_ t => strNoCR t.loc
-  | .text s _ => strNoCR s
-  | .comment s => strNoCR s
-  | .pi t d => strNoCR t && strNoCR d
-  | .doctype n p s => strNoCR n && optNoCR p && optNoCR s
-  | .xmlDecl v e _ => strNoCR v && optNoCR e
-  | _ => true
-
 def expectHtml (dopt : Option DocTypeT) (s : Stream) : Sexp :=
   match forestOf s with
   | none => out "not-nested"
@@ -129,7 +113,7 @@ def expectXhtml (dropd : Bool) (dopt : Option DocTypeT) (s : Stream) : Sexp :=
     let (decl, dt, body) := splitProlog ns
     let u := firstNs body
     if u == xmlNs then out "xml-namespace"
-    else if !s.all evNoCR then out "carriage-return"
+    else if !docNcr u dopt decl dt body then out "carriage-return"
     else if !attrValOkB u then out "namespace-uri"
     else if !okList body then out "not-a-forest"
     else if !forestUniformNs u body then out "mixed-namespaces"
